@@ -151,31 +151,170 @@ def classify(op, exp, mem, fs):
     return ("violation", "lookup result is not the highest revision added: spec=%s real=%s" % (exp, real))
 
 
-def replay(ctx, behaviours, tag="sim"):
-    """Apply the behaviours to the real databases. -> (violations, stats)"""
+def run_driver(ctx, cases, tag):
+    """cases: list of lists of op dicts (op_line format). Runs them on the two real databases.
+    -> (rows with "mem"/"fs" results, stats)"""
     d = ctx.subdir("dbreplay_" + tag)
     inp, outp = os.path.join(d, "ops.ndjson"), os.path.join(d, "res.ndjson")
     tmp = os.path.join(d, "fs")
     os.makedirs(tmp)
     rows = []
-    for c, ops in enumerate(behaviours):
+    for c, ops in enumerate(cases):
         rows.append({"case": c, "op": "Reset", "predef_rev": PREDEF_REV})
-        for i, last in enumerate(ops):
-            rows.append(op_line(c, i, last))
+        rows.extend(ops)
     common.write_ndjson(inp, rows)
     tb = goharness.overlay_test_build(ctx, "asserts", OVERLAY)
     rc, o = goharness.run_test_bin(ctx, tb, "^TestVerifAssertDB$", cwd=os.path.join(common.REPO, "asserts"),
                                    env={"VERIF_IN": inp, "VERIF_OUT": outp, "VERIF_TMP": tmp},
-                                   timeout=ctx.pick(600, 3000))
+                                   timeout=ctx.pick(900, 3000))
     goharness.check_driver(rc, o, "assertdb driver")
     m = re.search(r'VERIF-STATS cases=(\d+) ops=(\d+) signed=(\d+)', o)
     if not m:
         raise InfraError("assertdb driver printed no stats:\n%s" % common.tail(o, 20))
     got = common.read_ndjson(outp)
-    n_ops = sum(len(b) for b in behaviours)
+    n_ops = sum(len(b) for b in cases)
     if len(got) != n_ops or int(m.group(2)) != n_ops:
         raise InfraError("assertdb driver answered %d of %d operations" % (len(got), n_ops))
-    return evaluate(behaviours, got), {"real_ops": 2 * n_ops, "signed_assertions": int(m.group(3))}, got
+    return got, {"real_ops": 2 * n_ops, "signed_assertions": int(m.group(3))}
+
+
+def replay(ctx, behaviours, tag="sim"):
+    """T->I: apply TLC behaviours to the real databases. -> (evaluation, stats, rows)"""
+    cases = [[op_line(c, i, last) for i, last in enumerate(ops)] for c, ops in enumerate(behaviours)]
+    got, stats = run_driver(ctx, cases, tag)
+    return evaluate(behaviours, got), stats, got
+
+
+def random_histories(ctx, n, depth):
+    """I->T generator, beyond the TLC constants of the exhaustive/simulate configs (must stay inside
+    TraceAssertDB.cfg: 3 plain keys, 2 sequence keys x 5, revisions 0..6)."""
+    import random
+    rnd = random.Random(ctx.seed * 7919 + 17)
+    cases = []
+    for c in range(n):
+        plain = rnd.sample(["a", "b", "c"], rnd.randint(1, 3))
+        skeys = rnd.sample(["s", "t"], rnd.randint(1, 2))
+        nseq = rnd.randint(2, 5)
+        def some_id(storable_bias=0.85):
+            x = rnd.random()
+            if x < storable_bias / 2:
+                return {"t": "plain", "k": rnd.choice(plain), "n": 0}
+            if x < storable_bias:
+                return {"t": "seq", "k": rnd.choice(skeys), "n": rnd.randint(1, nseq)}
+            return rnd.choice([{"t": "predef", "k": "p", "n": 0}, {"t": "trusted", "k": "canonical", "n": 0}])
+        ops = []
+        for i in range(depth):
+            x = rnd.random()
+            d = {"case": c, "i": i}
+            if x < 0.5:
+                ident = some_id()
+                fm = {"plain": [0, 0, 1, 1, 2], "predef": [0, 1, 2], "trusted": [0], "seq": [0, 0, 1, 2, 2, 3]}[ident["t"]]
+                d.update(op="Add", id=ident, rev=rnd.randint(0, 6), fmt=rnd.choice(fm))
+            elif x < 0.6:
+                d.update(op="Find", id=some_id(0.9))
+            elif x < 0.68:
+                ident = some_id(1.0)
+                d.update(op="FindMaxFormat", id=ident, mf=rnd.randint(0, 2 if ident["t"] == "seq" else 1))
+            elif x < 0.72:
+                d.update(op=rnd.choice(["FindPredefined", "FindTrusted"]), id=some_id(0.5))
+            elif x < 0.84:
+                typ = rnd.choice(["plain", "seq"])
+                key = rnd.choice([""] + (plain + ["p"] if typ == "plain" else skeys))
+                d.update(op="FindMany", typ=typ, key=key, par=rnd.choice([-1, 0, 1]))
+            else:
+                d.update(op="FindSequence", key=rnd.choice(skeys), after=rnd.randint(-1, nseq), mf=rnd.randint(-1, 2))
+            ops.append(d)
+        cases.append(ops)
+    return cases
+
+
+def trace_validate(ctx, cases):
+    """I->T: random histories on the real databases, validated by TLC against TraceAssertDB.
+    -> (violations, mismatches, stats)"""
+    got, stats = run_driver(ctx, cases, "rand")
+    violations, mismatches = [], []
+    events = []
+    line_of = []
+    cur = None
+    dead = set()          # cases already reported (mem != fs): dropped from the trace
+    by_case = {}
+    for r in got:
+        by_case.setdefault(r["case"], []).append(r)
+    for c in sorted(by_case):
+        rows = by_case[c]
+        hist = []
+        kept = []
+        for r in rows:
+            mem, fs = norm_real(r["op"], r["mem"]), norm_real(r["op"], r["fs"])
+            if mem != fs or mem["r"] in ("error", "wrong-identity", "inconsistent-assertion"):
+                where = "%s after [%s]" % (show(r), " ".join(hist))
+                why = ("memory and filesystem backstores disagree: mem=%s fs=%s" % (mem, fs)) if mem != fs else \
+                    "lookup returned a wrong assertion / unexpected error: %s" % mem
+                violations.append(Violation(key=where, desc="%s: %s" % (where, why),
+                                            replay={"case": c, "i": r["i"], "mem": r["mem"], "fs": r["fs"],
+                                                    "behaviour": [show(x) for x in rows[:r["i"] + 1]]}))
+                break
+            kept.append(r)
+            if r["op"] == "Add" and mem["r"] == "ok":
+                hist.append(_hist_item(r))
+        events.append({"ev": "Reset", "case": c})
+        line_of.append((c, -1))
+        for r in kept:
+            ev = {"ev": r["op"], "case": c, "i": r["i"]}
+            for k in ("id", "rev", "fmt", "mf", "after", "par", "typ", "key"):
+                if k in r and r[k] is not None:
+                    ev[k] = r[k]
+            if r["op"] == "FindMany":
+                ev.setdefault("key", "")
+            res = dict(r["mem"])
+            res["many"] = res.get("many") or []
+            res.pop("msg", None)
+            ev["res"] = res
+            events.append(ev)
+            line_of.append((c, r["i"]))
+    d = ctx.subdir("dbtrace")
+    tpath = os.path.join(d, "trace.ndjson")
+    common.write_ndjson(tpath, events)
+    n_cases = len(by_case)
+    tv = tlc.validate_trace(ctx, "TraceAssertDB", "TraceAssertDB.cfg", tpath, timeout=ctx.pick(900, 3000))
+    while not tv["accepted"]:
+        c, i = line_of[tv["stuck_line"] - 1]
+        rows = by_case[c]
+        r = rows[i] if i >= 0 else None
+        if r is None:
+            raise InfraError("trace validation stuck on a Reset line (%d)" % tv["stuck_line"])
+        hist = [_hist_item(x) for x in rows[:i] if x["op"] == "Add" and x["mem"]["r"] == "ok"]
+        where = "%s after [%s]" % (show(r), " ".join(hist))
+        real = norm_real(r["op"], r["mem"])
+        rec = {"case": c, "i": i, "op": show(r), "real": r["mem"], "tlc": tv["invariant"] or "step not allowed by AssertDB",
+               "behaviour": [show(x) for x in rows[:i + 1]]}
+        if tv["invariant"]:
+            violations.append(Violation(key=where, desc="%s: real state violates %s" % (where, tv["invariant"]), replay=rec))
+        elif r["op"] == "Add" and real["r"] != "ok":
+            mismatches.append(dict(rec, why="Add refused differently from the spec"))
+        elif r["op"] != "Add" and _refinement_op(r):
+            mismatches.append(dict(rec, why="format-limited lookup differs from the spec"))
+        else:
+            violations.append(Violation(key=where, desc="%s: real result %s is not what AssertDB allows (%s)" % (
+                where, real, "accepted an Add that must be refused" if r["op"] == "Add" else "not the highest revision added"),
+                replay=rec))
+        # drop the offending case and validate the rest (at most a few rounds)
+        if len(violations) + len(mismatches) >= 5:
+            break
+        keep = [(e, lo) for e, lo in zip(events, line_of) if e["case"] != c]
+        events, line_of = [k[0] for k in keep], [k[1] for k in keep]
+        if not events:
+            break
+        common.write_ndjson(tpath, events)
+        tv = tlc.validate_trace(ctx, "TraceAssertDB", "TraceAssertDB.cfg", tpath, timeout=ctx.pick(900, 3000),
+                                name="trace_TraceAssertDB_%d" % (len(violations) + len(mismatches)))
+    stats.update({"histories": n_cases, "events": len(events)})
+    return violations, mismatches, stats, events
+
+
+def _hist_item(r):
+    i = r["id"]
+    return "%s/%s%s:r%df%d" % (i["t"], i["k"], ("/%d" % i["n"]) if i["t"] == "seq" else "", r["rev"], r["fmt"])
 
 
 def evaluate(behaviours, got):
@@ -248,8 +387,18 @@ def run(ctx):
     ctx.log("replayed %d behaviours / %d real operations; %d violations, %d spec mismatches" % (
         len(behaviours), stats["real_ops"], len(ev["violations"]), len(ev["mismatches"])))
 
+    # 3. I->T: random histories beyond the TLC bounds on the real databases, validated against TraceAssertDB
+    nh, dh = ctx.pick((150, 40), (4000, 50))
+    tviol, tmis, tstats, events = trace_validate(ctx, random_histories(ctx, nh, dh))
+    ctx.log("trace-validated %d random histories / %d events; %d violations, %d spec mismatches" % (
+        tstats["histories"], tstats["events"], len(tviol), len(tmis)))
+    ev["violations"].extend(tviol)
+    ev["mismatches"].extend(tmis)
+
     # binding self-check: corrupt one recorded real result and make sure the comparison rejects it
     neg = negative_control(behaviours, got)
+    if not tviol and not tmis:
+        neg = neg and trace_negative_control(ctx, events)
 
     if not ev["violations"]:
         if ev["mismatches"]:
@@ -275,7 +424,9 @@ def run(ctx):
         "states": mc.distinct, "transitions": mc.generated, "depth": mc.depth,
         "tlc_config": cfg, "tlc_wall_s": round(mc.wall, 1),
         "action_coverage": cov_actions,
-        "traces_validated_against_impl": len(behaviours),
+        "traces_validated_against_impl": len(behaviours) + tstats["histories"],
+        "random_histories_trace_validated": tstats["histories"], "random_history_events": tstats["events"],
+        "random_history_real_operations": tstats["real_ops"],
         "simulated_behaviours": len(behaviours), "behaviour_depth": depth,
         "real_operations": stats["real_ops"], "distinct_signed_assertions": stats["signed_assertions"],
         "distinct_abstract_db_states_reached_by_real_code": ev["abstract_states"],
@@ -293,6 +444,22 @@ def run(ctx):
             "error values other than the classes {revision(used,current), unsupported(format,update), clash-trusted, "
             "clash-predefined, notfound} are not compared",
         ])
+
+
+def trace_negative_control(ctx, events):
+    """Corrupt one logged result of a real trace (found revision + 1): TraceAssertDB must reject it."""
+    import copy
+    ev2 = copy.deepcopy(events[:400])
+    for e in ev2:
+        if e["ev"] == "Find" and e["res"]["r"] == "found" and e["id"]["t"] in ("plain", "seq"):
+            e["res"]["rev"] += 1
+            break
+    else:
+        return False
+    p = os.path.join(ctx.subdir("dbtrace_neg"), "trace.ndjson")
+    common.write_ndjson(p, ev2)
+    tv = tlc.validate_trace(ctx, "TraceAssertDB", "TraceAssertDB.cfg", p, timeout=900, name="trace_TraceAssertDB_neg")
+    return not tv["accepted"]
 
 
 def negative_control(behaviours, got):
